@@ -288,6 +288,27 @@ pub fn typed_on<'a, B: BumpAllocatorTypedScope<'a> + ?Sized, T: Pod>(bump: &B, r
         _ => {
             // alloc_str / alloc_fmt with ASCII text derived from the seed
             let s: String = (0..n).map(|i| (b'a' + (b(seed, i, 0) % 26)) as char).collect();
+            if seed % 5 >= 3 {
+                // C strings: the block is the text plus its terminating NUL
+                let r = match (seed % 5, t) {
+                    (3, true) => bump.try_alloc_cstr_from_str(&s).map_err(drop),
+                    (3, false) => Ok(bump.alloc_cstr_from_str(&s)),
+                    (_, true) => bump.try_alloc_cstr_fmt(format_args!("{}{}", &s[..n / 2], &s[n / 2..])).map_err(drop),
+                    (_, false) => Ok(bump.alloc_cstr_fmt(format_args!("{}{}", &s[..n / 2], &s[n / 2..]))),
+                };
+                return match r {
+                    Ok(c) => {
+                        let bytes = c.to_bytes_with_nul();
+                        if bytes.len() != n + 1 {
+                            return TypedRes::WrongLen { got: bytes.len(), want: n + 1 };
+                        }
+                        let mut expect = s.into_bytes();
+                        expect.push(0);
+                        TypedRes::Block { ptr: bytes.as_ptr() as *mut u8, len: n + 1, align: 1, expect, extra: Vec::new() }
+                    }
+                    Err(()) => TypedRes::Failed,
+                };
+            }
             let r = if seed % 2 == 0 {
                 if t { bump.try_alloc_str(&s) } else { Ok(bump.alloc_str(&s)) }
             } else if t {
@@ -456,6 +477,25 @@ where
                 other => other,
             }
         }
+    }
+}
+
+/// Typed requests through the *original* handle of a claimed arena (C14): shared-reference methods only, through
+/// the scope itself, a reference to it and a trait object.
+pub fn shared_typed<'a, A, S>(s: &BumpScope<'a, A, S>, c: usize, req: &TypedReq) -> TypedRes
+where
+    A: BaseAllocator<S::GuaranteedAllocated>,
+    S: BumpAllocatorSettings,
+{
+    let mut r = req.clone();
+    r.method = req.method % 17;
+    match c % 3 {
+        0 => with_type!(req.ty, T => typed_on::<BumpScope<'a, A, S>, T>(s, &r)),
+        1 => {
+            let d: &dyn BumpAllocatorCoreScope<'a> = s;
+            typed_on::<dyn BumpAllocatorCoreScope<'a>, u16>(d, &r)
+        }
+        _ => typed_on::<&BumpScope<'a, A, S>, u64>(&s, &r),
     }
 }
 
